@@ -55,8 +55,8 @@ ASSUMPTIONS = [
     "(Grammar.Fresh) — theorem safe_of_grammar then gives SafeStream; all three are evaluated by the driver on every "
     "generated and every recorded real stream",
     "the report file is only written by FileReportSession through save_report_into_file (json_.py / xml.py / junit.py)",
-    "fixes/D16-atomic-report-save.diff is applied to the tree under test (the model mirrors the repaired save; on the "
-    "unrepaired tree the crash stream reports the violation D16)",
+    "the tree under test carries fix commit 9b94878 (fixes/D16-atomic-report-save.diff): the model mirrors the repaired "
+    "save; on a tree without it the crash stream reports the violation D16",
     "serialisations are self-delimiting (no strict prefix of a saved file loads): sampled on real files by C10.crash",
 ]
 RULE = ("snap: a case counts if at least one intermediate save (a save before the last handled event) was observed under "
@@ -838,6 +838,31 @@ def _corpus_events():
 _CORPUS_EVENTS = _corpus_events()
 
 
+def _intern(obs):
+    """the same normal form is loaded many times (json and xml, several strategies saving at the same event):
+    keep each distinct one once (`obs["nfs"]`) and refer to it by index — keeps replays and evidence small"""
+    table, index = [], {}
+
+    def put(load):
+        if load and "nf" in load:
+            key = json.dumps(load["nf"], sort_keys=True)
+            if key not in index:
+                index[key] = len(table)
+                table.append(load["nf"])
+            return {"nf": index[key]}
+        return load
+    for sess in list(obs["sessions"]) + ([obs["every"]] if "every" in obs else []):
+        for c in sess["copies"]:
+            c["load"] = put(c["load"])
+        sess["final"] = put(sess["final"])
+    obs["nfs"] = table
+    return obs
+
+
+def _nf(obs, load):
+    return obs["nfs"][load["nf"]]
+
+
 class Snap(C.Stream):
     name = "C10.snap"
     quick_cases = 90
@@ -895,13 +920,13 @@ class Snap(C.Stream):
                 events, obs = run_real(case["spec"], specs, top)
                 obs["events"] = events
                 obs["nb_threads"] = case["spec"]["nb_threads"]
-                return obs
+                return _intern(obs)
             obs = run_stream(case["events"], case["nb_threads"], specs, os.path.join(top, "a"))
             espec = [(case["every_backend"], case.get("variant", 0), "every_%ds" % case["every"])]
             obs2 = run_stream(case["events"], case["nb_threads"], espec, os.path.join(top, "b"), clock_seq=case["clock"])
             obs["every"] = obs2["sessions"][0]
             obs["every_handled"] = obs2["handled"]
-            return obs
+            return _intern(obs)
         finally:
             shutil.rmtree(top, ignore_errors=True)
 
@@ -931,8 +956,8 @@ class Snap(C.Stream):
                     continue
                 # prefix of the final report: the real in-memory report at the end of the stream (normal form);
                 # and of the last file
-                ref_final = final["nf"] if final is not None and "nf" in final else obs["final_report"]
-                why = nf_prefix(c["load"]["nf"], ref_final) if ref_final is not None else []
+                ref_final = _nf(obs, final) if final is not None and "nf" in final else obs["final_report"]
+                why = nf_prefix(_nf(obs, c["load"]), ref_final) if ref_final is not None else []
                 if why:
                     fails.append(C.Failure("C10/snapshot/not-prefix/" + kind,
                                            "%s: the file saved after event %d is not a prefix of the final report: %s"
@@ -949,7 +974,7 @@ class Snap(C.Stream):
             elif events and events[-1]["e"] == "sessionEnd" and len(events) not in got:
                 fails.append(C.Failure("C10/strategy/every_Ns/final-save-missing", "%s: no save at the end of the session" % tag))
             if got and final is not None and "nf" in final and "nf" in s["copies"][-1]["load"] \
-                    and final["nf"] != s["copies"][-1]["load"]["nf"]:
+                    and _nf(obs, final) != _nf(obs, s["copies"][-1]["load"]):
                 fails.append(C.Failure("C10/file-changed-without-save", "%s: file differs from the last observed save" % tag))
             if s.get("stray"):
                 fails.append(C.Failure("C10/stray-files", "%s: files left beside the report: %s" % (tag, s["stray"])))
@@ -1002,11 +1027,11 @@ class Snap(C.Stream):
                 return "%s: save points differ: implementation %s, model %s" % (s["spec"], got, m["saves"])
             for c in s["copies"]:
                 if c["k"] in reports and "nf" in c["load"]:
-                    if c["load"]["nf"] != reports[c["k"]]:
+                    if _nf(obs, c["load"]) != reports[c["k"]]:
                         return "%s: content of the snapshot after event %d differs: %s" % (
-                            s["spec"], c["k"], _first_diff(reports[c["k"]], c["load"]["nf"]))
+                            s["spec"], c["k"], _first_diff(reports[c["k"]], _nf(obs, c["load"])))
                     if unique:
-                        py = not nf_prefix(c["load"]["nf"], obs["final_report"])
+                        py = not nf_prefix(_nf(obs, c["load"]), obs["final_report"])
                         if py != mprefix[c["k"]]:
                             return "%s: prefix relation of snapshot %d to the final report: oracle %s, Lean prefixB %s" % (
                                 s["spec"], c["k"], py, mprefix[c["k"]])
